@@ -23,6 +23,15 @@ class Ctx(object):
         self.seed = seed
         self.overlay = overlay
         self._prog = prog
+        self.errors = []
+
+    def do(self, rule_fn, *args, **kwargs):
+        """run one rule group; an AnalysisError in it does not keep the other rules from being evaluated"""
+        try:
+            return rule_fn(self, *args, **kwargs)
+        except AnalysisError as e:
+            self.errors.append("%s: %s" % (getattr(rule_fn, "__name__", "?"), e))
+            return None
 
     @property
     def prog(self):
@@ -45,6 +54,18 @@ def run_property(prop, root="/repo", tier="quick", seed=0, only_construct=None, 
     ctx = Ctx(run, root, tier, seed, overlay=overlay)
     mod = importlib.import_module("sa.rules.%s" % prop)
     mod.run(ctx)
+    if ctx.errors:
+        # part of the analysis failed closed.  Violations already established by other rules are facts about their constructs
+        # and are reported (exit 1); with no violation the run is an analysis error (exit 2), never a pass.
+        viol = [i for i in run.instances if i.verdict == "violation"]
+        run.extra["analysis_errors"] = list(ctx.errors)
+        if not viol or only_construct is not None:
+            raise AnalysisError("; ".join(ctx.errors))
+        run.floors = {}
+        if not quiet:
+            for e in ctx.errors:
+                print("  analysis-note (a rule group failed closed; the violations below were established independently): %s" % e)
+        canaries = False
     if canaries and overlay is None:
         from selftest import canaries as cn
         cn.run_canaries(prop, ctx)
